@@ -99,7 +99,7 @@ static void Apply(int ci, const Message & m)
    }
 }
 
-struct Stats {bool setThenRemoveInBatch, filterChange, payloadAcrossFilter, departureWhileSubscribed, reorderAfterInserts, indexedRemoval; uint32 checks, comparedNodes, comparedIndices, dontCareSkips, requestedSnapshots; Stats() {memset(this, 0, sizeof(*this));}};
+struct Stats {bool supercede, setThenRemoveInBatch, filterChange, payloadAcrossFilter, departureWhileSubscribed, reorderAfterInserts, indexedRemoval; uint32 checks, comparedNodes, comparedIndices, dontCareSkips, requestedSnapshots; Stats() {memset(this, 0, sizeof(*this));}};
 static Stats g_st;
 
 static void Check(World & w, const char * when)
@@ -233,7 +233,7 @@ static MessageRef GenCommand(World & w, int who, vf::BS & bs, int depth, bool & 
 #else
          if (bs.u8()%6 == 0) flags.SetBit(SETDATANODE_FLAG_ADDTOINDEX);
 #endif
-         if (bs.u8()%8 == 0) flags.SetBit(SETDATANODE_FLAG_DONTOVERWRITEDATA);
+         {const uint8_t fb = bs.u8(); if (fb%8 == 0) flags.SetBit(SETDATANODE_FLAG_DONTOVERWRITEDATA); if ((fb/8)%4 == 0) {flags.SetBit(SETDATANODE_FLAG_ENABLESUPERCEDE); g_st.supercede = true;}}     // supercede: earlier updates of the same node that are still in a subscriber's outgoing queue are dropped in favour of this one
          if (flags.AreAnyBitsSet()) (void) m()->AddFlat(PR_NAME_FLAGS, flags);
          std::string l = "SETDATA";
          for (uint32 i=0; i<n; i++)
@@ -423,7 +423,7 @@ extern "C" int vf_run_case(const uint8_t * data, size_t size)
 
    vf::Count("steps", (uint64_t)steps); vf::Count("quiescent_checks", g_st.checks); vf::Count("mirror_nodes_compared", g_st.comparedNodes); vf::Count("index_replays_compared", g_st.comparedIndices); vf::Count("dont_care_skips", g_st.dontCareSkips);
    if (g_st.setThenRemoveInBatch) vf::Count("case_set_then_remove_in_one_batch"); if (g_st.filterChange) vf::Count("case_filter_change_on_existing_subscription"); if (g_st.departureWhileSubscribed) vf::Count("case_departure_while_others_subscribed");
-   if (g_st.reorderAfterInserts) vf::Count("case_with_reorder"); if (g_st.comparedIndices) vf::Count("case_with_armed_index_replay_compared"); if (g_st.requestedSnapshots) vf::Count("case_with_requested_index_snapshot_judged");
+   if (g_st.reorderAfterInserts) vf::Count("case_with_reorder"); if (g_st.supercede) vf::Count("case_with_superceding_set"); if (g_st.comparedIndices) vf::Count("case_with_armed_index_replay_compared"); if (g_st.requestedSnapshots) vf::Count("case_with_requested_index_snapshot_judged");
    if (g_armedFromBirth) vf::Count("case_index_replayed_from_the_birth_of_its_node"); if (g_armedWhileEmpty) vf::Count("case_index_replayed_from_an_empty_index_at_a_quiescent_point"); if (g_copies) vf::Count("case_with_subtree_clone_or_restore"); if (g_copyJudged) vf::Count("case_index_of_a_cloned_or_restored_node_judged");
 #ifdef VF_C13
    const bool nontrivial = (g_st.comparedIndices >= 1)&&((g_st.reorderAfterInserts)||(g_st.indexedRemoval));
